@@ -572,6 +572,9 @@ def _status_consts(ctx, f, binds, depth, seen):
     a = f.node.args
     defaults = dict(zip([x.arg for x in a.args][-len(a.defaults):],
                         a.defaults)) if a.defaults else {}
+    for x, d in zip(a.kwonlyargs, a.kw_defaults):
+        if d is not None:
+            defaults[x.arg] = d
     g = cfgmod.cfg_of(f)
     setters = []
 
